@@ -284,6 +284,17 @@ def correspondence(ctx):
             fr.append((p, data))
             cl.append("comp2 c2 %s %s" % (frames.pstr(p), data.hex()))
         cmeta.append(fr)
+    # directed: frame A keeps a small input buffer but a large ring; frame B needs a larger input buffer and a smaller total
+    for i in range(14 if quick else 200):
+        wa = rng.choice([14, 15, 16])
+        na = (1 << wa) * rng.choice([2, 3])
+        nb = rng.randint((1 << wa) + 2000, min(131072, (1 << wa) * 2 - 3000))
+        A = ({100: rng.choice([1, 3]), 101: wa, 200: 0}, bytes(rng.choice(b"etaoin shrdlu,.\n") for _ in range(na)))
+        B = ({100: 1, 101: 17, 200: 1}, bytes(rng.getrandbits(8) if rng.random() < 0.9 else 32 for _ in range(nb)))
+        fr = [A, B] if rng.random() < 0.8 else [B, A, B]
+        for p, data in fr:
+            cl.append("comp2 c2 %s %s" % (frames.pstr(p), data.hex()))
+        cmeta.append(fr)
     rc, cout, err = frames.run_lines(hd, cl, timeout=1800)
     it = iter(cout)
     ql, qmeta = [], []
@@ -300,13 +311,23 @@ def correspondence(ctx):
         stream = b"".join(blobs)
         chunks = rng.choice(["1000", "4096", "70000", "333,70000"])
         for mode in ("dstatic %d" % (1 << 20), "dheap 27"):
-            ql.append("%s %s %s %s" % (mode, stream.hex(), chunks, rng.choice(["30000", "100000,7"])))
-            qmeta.append((len(plain), plain))
+            oc = rng.choice(["30000", "100000,7"])
+            ql.append("%s %s %s %s" % (mode, stream.hex(), chunks, oc))
+            # the buffer-size tie is only meaningful when no frame can take the single-pass shortcut (content size known, output room >= content, whole frame in one call)
+            noshort = (oc == "30000") and all(p.get(200) == 0 or len(data) > 30000 for p, data in fr)
+            qmeta.append((len(plain), plain, [b.hex() for b in blobs], 30000, 0 if noshort else 1))
     qo = frames.parallel(lambda ch: frames.run_lines(exe_m, ch, timeout=3000)[1], frames.split_chunks(ql, 16))
     import hashlib
-    for ln, o, (n, plain) in zip(ql, qo, qmeta):
+    dq = ["dseq %d %d %s" % (m[3], m[4], " ".join(m[2])) for m in qmeta]
+    rcq, mq, eq = zv.run([zv.driver_exe(), "mem"], "\n".join(dq) + "\n", timeout=900)
+    mq = mq.split("\n")
+    for ln, o, (n, plain, blobs, firstout, whole), mline in zip(ql, qo, qmeta, mq):
         if not o.startswith("ok %d " % n):
-            ctx.violation("frames with different buffer needs through one %s decoding context: %s instead of %d bytes (first frames decode alone)" % (ln.split()[0], o[:100], n), dict(kind="monitor", op=ln[:200000], result=o))
+            ctx.violation("frames with different buffer needs through one %s decoding context: %s instead of %d bytes (each frame decodes alone)" % (ln.split()[0], o[:100], n), dict(kind="monitor", op=ln[:200000], result=o))
+            continue
+        mb = re.search(r"bufs=(\S+)", o)
+        if mb and whole == 0 and mb.group(1) != mline.strip() and mb.group(1) != "-":
+            ctx.violation("stream buffer sizes after each frame differ from the sizing model: code %s / model %s (%s, %d frames)" % (mb.group(1), mline.strip(), ln.split()[0], len(blobs)), dict(kind="tie-dbuf-seq", op=ln[:200000], code=mb.group(1), model=mline.strip()), no_input=True)
     ev += len(ql); distinct |= set(ql)
     return dict(evaluations=ev, distinct_nontrivial=len(distinct),
                 rule="est lines (random cParams x {cctx,cstream}); ws scenarios (static/heap x one-shot/stream x misalignment x 1..150 uses with levels l<=L or explicit parameter sets incl. LDM, row finder, maxBlockSize, external producer) "
